@@ -109,7 +109,7 @@ type Term struct {
 type TermStore struct {
 	tab   map[string]*Term
 	next  int
-	vars  []*Term // declaration order
+	vars  []*Term           // declaration order
 	ufs   map[string]string // UF name -> declaration text
 	ufOrd []string
 }
